@@ -243,7 +243,9 @@ def exhaustive(tid, length, reduced):
 # --------------------------------------------------------------------------
 
 def run_batch(exe, cases, acc):
-    r = core.line_shard(exe, cases)
+    r = core.line_shard(exe, cases, timeout=300)
+    if len(r['alarms']) > 20:
+        acc['stop'] = True          # broken build: no point in going on
     acc['evals'] += r['evals']
     acc['sigs'] |= r['sigs']
     acc['alarms'] += r['alarms'][:40]
@@ -264,7 +266,10 @@ def _shard(a):
 
     def flush(force=False):
         nonlocal cases
-        if cases and (force or len(cases) >= 40000):
+        if acc.get('stop'):
+            cases = []
+        # the first batch is small: a badly broken build is noticed early
+        if cases and (force or len(cases) >= (40000 if acc['evals'] else 400)):
             if len(acc['samples']) < 2:
                 acc['samples'].append(cases[len(cases) // 2]['line'])
             run_batch(exe, cases, acc)
@@ -276,10 +281,14 @@ def _shard(a):
             idx += 1
             if idx % n != i:
                 continue
+            if acc.get('stop'):
+                break
             cases.append(mk_case(rnd, tid, list(args)))
             acc['stats']['exhaustive_vectors'] = acc['stats'].get('exhaustive_vectors', 0) + 1
             flush()
     for _ in range(nrand):
+        if acc.get('stop'):
+            break
         tid = rnd.randrange(len(TABLES))
         cases.append(mk_case(rnd, tid, rand_args(rnd, tid)))
         flush()
@@ -296,6 +305,8 @@ def _fresh(a):
         tid = rnd.randrange(len(TABLES))
         c = mk_case(rnd, tid, rand_args(rnd, tid), kind='getopt-fresh', with_prev=False)
         run_batch(exe, [c], acc)
+        if acc.get('stop'):
+            break
     acc['stats'] = {'fresh_process_parses': acc['evals']}
     return acc
 
@@ -345,7 +356,7 @@ def run(ctx):
     n = core.NCPU
     seeds = core.shard_seeds(ctx.seed, 'C18', 2 * n)
     plan = plan_for(ctx)
-    nrand = max(1, ctx.n(160000, 4000000) // n)
+    nrand = max(1, ctx.n(320000, 4000000) // n)
     res = core.pmap(_shard, [(exe, seeds[i], ctx.tier, i, n, plan, nrand) for i in range(n)])
     core.merge(ctx, res)
     nfresh = max(1, ctx.n(480, 6400) // n)
